@@ -88,6 +88,29 @@ NEUTRAL_FLAVOUR = {
 
 NEUTRAL_FLAVOUR[4] = NEUTRAL_FLAVOUR[3]
 
+# round 5: changes in disguise.  Seeds that look like a feature / a refactoring; neutral changes that are real maintenance work (not only
+# behaviour-preserving rewrites): what must stay silent is everything under which the property still holds.
+SEED_FLAVOUR[5] = ("The two variants must break the property in different ways and at different places: variant a as the SIDE EFFECT OF A SMALL FEATURE OR "
+                   "OPTIMISATION a maintainer would plausibly add near the responsible code (a cache, a fast path, an extra optional parameter, a convenience "
+                   "default, more logging or diagnostics, support for one more device quirk) - the feature itself is reasonable, the breakage is collateral; "
+                   "variant b DISGUISED AS A BEHAVIOUR-PRESERVING REFACTORING (a helper extracted or inlined, a loop turned into a comprehension or the "
+                   "reverse, a flag replaced by early exits, a constant table introduced, names changed) that is in fact not equivalent in one corner. The "
+                   "commit message a reviewer would expect for each should sound harmless; put that one-line message at the top of notes.md.")
+NEUTRAL_FLAVOUR[5] = (
+    "  r1  A SMALL FEATURE next to the responsible code that legitimately changes behaviour OUTSIDE the property: for example extra debug / info logging, "
+    "a new optional parameter or keyword whose default keeps today's behaviour, an additional public accessor or read-only property, a statistics "
+    "counter, one more recognised (but unused by the property) enum member or device attribute, better error messages (same exception classes), type "
+    "hints and docstrings. The property must still hold exactly as stated, and nothing the property talks about may change.\n"
+    "  r2  A PERFORMANCE OR ROBUSTNESS CHANGE that keeps the property: avoiding copies (memoryview / slices / joins), precomputing a table or constant, "
+    "caching something that cannot go stale, hoisting work out of a loop, replacing a linear search by a lookup, defensive checks that can never fire "
+    "for the inputs the property quantifies over and reject nothing that was accepted before.\n"
+    "  r3  A LARGE MIXED CLEAN-UP in one patch, the kind that lands after a style discussion: rename private names AND modernise idioms AND reshape "
+    "functions (split / merge / reorder / flags vs early exits) of the responsible code all at once, 40-120 changed lines, still exactly "
+    "behaviour-preserving.\n"
+    "For r1 and r2 'behaviour-preserving' in the requirements below means: everything the property states is preserved for ALL inputs, schedules and "
+    "histories, existing callers that do not use the new feature observe the same results and exceptions, and the existing tests pass; say in notes.md "
+    "exactly what new behaviour was added.")
+
 
 def sh(cmd):
     return subprocess.run(cmd, shell=True, capture_output=True, text=True)
@@ -95,8 +118,8 @@ def sh(cmd):
 
 VERIF = os.path.dirname(os.path.dirname(os.path.abspath(__file__)))
 BASELINE = json.load(open("/root/.vp/BASELINE.json"))["stable_pass"]
-LETTERS = {3: {"a": "e", "b": "f"}, 4: {"a": "g", "b": "h"}}          # seeds: round -> variant -> suffix under /verif/seeded
-NUMBERS = {3: {"r1": "r8", "r2": "r9", "r3": "r10"}, 4: {"r1": "r11", "r2": "r12", "r3": "r13"}}
+LETTERS = {3: {"a": "e", "b": "f"}, 4: {"a": "g", "b": "h"}, 5: {"a": "i", "b": "j"}}          # seeds: round -> variant -> suffix under /verif/seeded
+NUMBERS = {3: {"r1": "r8", "r2": "r9", "r3": "r10"}, 4: {"r1": "r11", "r2": "r12", "r3": "r13"}, 5: {"r1": "r14", "r2": "r15", "r3": "r16"}}
 
 
 def variants(root):
